@@ -31,6 +31,14 @@ func ruleBinUnplaced(c *Ctx, r *Rep, tier string) {
 	if un == 0 || mu == 0 || un == mu {
 		why = fmt.Sprintf("flag constants Unmapped=%#x MateUnmapped=%#x", un, mu)
 	}
+	stopAtBinFor := func(i ssa.Instruction) bool {
+		call, ok := i.(*ssa.Call)
+		if !ok {
+			return false
+		}
+		g := staticCallee(&call.Call)
+		return g != nil && g.Name() == "BinFor"
+	}
 	n := 0
 	for _, other := range []int64{0, 0x1, 0x10 | 0x40, 0x100 | 0x400} {
 		for _, a := range []int64{0, un} {
@@ -39,43 +47,50 @@ func ruleBinUnplaced(c *Ctx, r *Rep, tier string) {
 					break
 				}
 				v := other | a | b
-				const binOfInterval = 424242 // stands for BinFor(Pos, …), which is not looked into: the run stops at that call
-				sr := symExecAt(fn, entryLoc(fn), func(i ssa.Instruction) bool {
-					call, ok := i.(*ssa.Call)
-					if !ok {
-						return false
-					}
-					g := staticCallee(&call.Call)
-					return g != nil && g.Name() == "BinFor"
-				}, map[string]int64{"$0.Flags": v, "$0.Pos": 500, "$0.End()": 1000})
-				if sr.Stopped != nil && sr.Undec == "" {
-					sr.Rets, sr.Known = []int64{binOfInterval}, []bool{true}
-				}
+				// the run stops at the call of BinFor, which is not looked into
+				sr := symExecAt(fn, entryLoc(fn), stopAtBinFor, map[string]int64{"$0.Flags": v, "$0.Pos": 500, "$0.End()": 1000})
 				n++
-				both := a != 0 && b != 0
 				switch {
-				case sr.Undec != "" && both:
-					why = fmt.Sprintf("for flags %#x (both mates unmapped) the bin depends on %s, want the fixed bin 4680", v, sr.Undec)
-				case both:
-					if len(sr.Rets) != 1 || !sr.Known[0] || sr.Rets[0] != 4680 {
-						why = fmt.Sprintf("for flags %#x (both mates unmapped) the bin is %v, want 4680 = reg2bin(-1, 0)", v, sr.RetKeys)
-					}
+				case sr.Undec != "":
+					why = fmt.Sprintf("for flags %#x the bin depends on %s, want BinFor(Pos, End())", v, sr.Undec)
+				case sr.Stopped != nil:
+				case len(sr.Rets) == 1 && sr.Known[0]:
+					why = fmt.Sprintf("for flags %#x the bin of a read at position 500 is the constant %d: the specification computes the bin from the position whatever the flags say (reg2bin(pos, pos+1) for an unmapped read) – a read placed at a position, its own or its mate's, is otherwise filed under a bin no query at that position visits", v, sr.Rets[0])
 				default:
-					// must be the bin of [Pos, End())
-					switch {
-					case sr.Undec != "":
-						why = fmt.Sprintf("for flags %#x the bin depends on %s, want BinFor(Pos, End())", v, sr.Undec)
-					case len(sr.Rets) == 1 && sr.Known[0] && sr.Rets[0] == binOfInterval:
-					case len(sr.Rets) == 1 && sr.Known[0]:
-						why = fmt.Sprintf("for flags %#x (not both mates unmapped) the bin is the constant %d: a read placed at a position (its own or its mate's) is filed under a bin no query at that position visits", v, sr.Rets[0])
-					default:
-						why = fmt.Sprintf("for flags %#x the bin is %s, want BinFor(Pos, End())", v, strings.Join(sr.RetKeys, ","))
-					}
+					why = fmt.Sprintf("for flags %#x the bin is %s, want BinFor(Pos, End())", v, strings.Join(sr.RetKeys, ","))
 				}
 			}
 		}
 	}
-	r.Check(why == "", rule, "sam.(*Record).Bin#unplaced-shortcut", c.Pos(fn.Pos()), fmt.Sprintf("%d flag combinations: 4680 iff Unmapped and MateUnmapped, else BinFor(Pos, End())", n), why)
+	r.Check(why == "", rule, "sam.(*Record).Bin#position-only", c.Pos(fn.Pos()), fmt.Sprintf("%d flag combinations with a position: always BinFor(Pos, …)", n), why)
+
+	// a read without a position gets 4680 = reg2bin(-1, 0): a constant, or what
+	// BinFor(-1, 0) gives (first bin of the finest level, 4681, plus -1>>14;
+	// the level table is BIN-PAIRS' matter)
+	r.Instance(rule, 1)
+	why = ""
+	for _, v := range []int64{0, un | mu, un} {
+		sr := symExecAt(fn, entryLoc(fn), stopAtBinFor, map[string]int64{"$0.Flags": v, "$0.Pos": -1, "$0.End()": -1})
+		switch {
+		case sr.Undec != "":
+			why = fmt.Sprintf("for a read without position (flags %#x) the bin depends on %s", v, sr.Undec)
+		case sr.Stopped != nil:
+			call := sr.Stopped.(*ssa.Call)
+			env := map[string]int64{"$0.Flags": v, "$0.Pos": -1, "$0.End()": -1}
+			beg, ok1 := symValueAt(fn, call, call.Call.Args[0], env)
+			end, ok2 := symValueAt(fn, call, call.Call.Args[1], env)
+			if !ok1 || !ok2 || beg != -1 || end != 0 {
+				why = fmt.Sprintf("for a read without position (flags %#x) the bin is BinFor(%d, %d), want BinFor(-1, 0) = 4680", v, beg, end)
+			}
+		case len(sr.Rets) == 1 && sr.Known[0] && sr.Rets[0] == 4680:
+		default:
+			why = fmt.Sprintf("for a read without position (flags %#x) the bin is %v, want 4680 = reg2bin(-1, 0)", v, sr.RetKeys)
+		}
+		if why != "" {
+			break
+		}
+	}
+	r.Check(why == "", rule, "sam.(*Record).Bin#no-position", c.Pos(fn.Pos()), "Pos = -1: the constant 4680 or BinFor(-1, 0)", why)
 
 	// the interval handed to BinFor has at least length one: the specification
 	// treats an alignment whose CIGAR consumes no reference as one base long
